@@ -154,6 +154,18 @@ def route_case(ctx, case):
                           allowed_versions=allowed,
                           handle_exception=fkw, handle_exit=on_exit, **ckw)
 
+        # a second Connection object that is never connected: handlers and
+        # the final handler registered on it belong to it alone
+        bystander = []
+        other = Connection('localhost', 25566, username='v',
+                           allowed_versions=allowed,
+                           handle_exception=lambda e, i: bystander.append(
+                               'final'))
+        other.register_exception_handler(
+            lambda e, i: bystander.append('handler'))
+        other.register_exception_handler(
+            lambda e, i: bystander.append('early'), early=True)
+
         def make_handler(h):
             def fn(exc, exc_info):
                 calls.append((h['id'], exc, exc_info[1] is exc and
@@ -240,6 +252,10 @@ def route_case(ctx, case):
                 second = e
     if state in ('idle', 'blocked'):
         ctx.fail('route', 'X3-thread-not-terminated', case, state)
+        return
+    if bystander or other.exception is not None:
+        ctx.fail('route', 'X1-handler-of-another-connection-called', case,
+                 (bystander, repr(other.exception)), 'no call')
         return
     # ---- the initial exception
     if origin in ('early_listener', 'listener', 'login_listener',
